@@ -33,6 +33,22 @@ def open_finding_ids(prop=None):
     )
 
 
+class quiet_stderr:
+    """silence what the C library / HDF5 print to file descriptor 2 while the implementation is driven"""
+
+    def __enter__(self):
+        sys.stderr.flush()
+        self.saved = os.dup(2)
+        self.null = os.open(os.devnull, os.O_WRONLY)
+        os.dup2(self.null, 2)
+
+    def __exit__(self, *a):
+        sys.stderr.flush()
+        os.dup2(self.saved, 2)
+        os.close(self.saved)
+        os.close(self.null)
+
+
 class Ctx:
     def __init__(self, prop, tier, seed, keep=False):
         self.prop = prop
@@ -118,9 +134,11 @@ class Ctx:
         return r
 
     # -- E3 ------------------------------------------------------------------------
-    def validate(self, module, cfg, scenarios, label=None, shards=16, **kw):
+    def validate(self, module, cfg, scenarios, label=None, shards=16, relevant=None, **kw):
         """Validate scenarios against a trace spec.  Returns the verdict list; rejections are recorded as
-        violations (or known-finding hits when the trace spec accepted them only through a deviation action)."""
+        violations (or known-finding hits when the trace spec accepted them only through a deviation action).
+        `relevant(clause)`: which rejecting clauses belong to the property being checked - a scenario rejected only
+        for clauses of other properties is counted, not reported (those properties' own checks report it)."""
         known = sorted(self.open)
         for s in scenarios:
             s.setdefault("known", known)
@@ -131,6 +149,7 @@ class Ctx:
         self.states += st["states"]
         self.transitions += st["transitions"]
         self.mc.append({"module": module, "cfg": cfg, "trace_validation": True, "scenarios": len(scenarios), **st})
+        other = 0
         for i, (s, v) in enumerate(zip(scenarios, verdicts)):
             if v["v"] == "ACCEPT":
                 self.traces += 1
@@ -139,10 +158,18 @@ class Ctx:
             else:
                 for c in v["why"]:
                     self.clauses[c] = self.clauses.get(c, 0) + 1
+                mine = [c for c in v["why"] if relevant is None or relevant(c)]
+                if not mine:
+                    other += 1
+                    continue
                 self.violation(
-                    "%s rejected scenario %s at event %s: %s" % (module, s.get("name", i), v["line"], ",".join(v["why"])),
+                    "%s rejected scenario %s (%s) at event %s: %s"
+                    % (module, s.get("name", i), s.get("desc", ""), v["line"], ",".join(mine)),
                     {"module": module, "cfg": cfg, "scenario": s, "verdict": v},
                 )
+        if other:
+            self.extra["scenarios_rejected_only_for_other_properties"] = self.extra.get(
+                "scenarios_rejected_only_for_other_properties", 0) + other
         return verdicts
 
     # -- results ---------------------------------------------------------------------
